@@ -4,6 +4,7 @@
 From Coq Require Import List ZArith NArith Bool Arith.
 Import ListNotations.
 From V Require Import Model.SnapOps Proofs.SnapOpsFlat Proofs.SnapOpsNested Proofs.SnapOpsRuns.
+From V Require Import Model.TreeAssign Proofs.TreeAssignProofs Proofs.TreeAssignConfluence.
 
 Theorem C09_two_runs_compose_flat :
   forall (fixed1 fixed2 : bool) (F1 F2 : flags) (K : kind) (old : option src) 
@@ -55,9 +56,41 @@ Theorem C09_src_after_val :
   forall (F : flags) (s : site), option_map src_val (src_after F s) = value_after F s.
 Proof. exact src_after_val. Qed.
 
+(* nested lists / tuples of any depth (Model/TreeAssign.v): two runs compose to one run with the union of the flags - for all flag sets *)
+Theorem C09_tree_two_runs_compose :
+  forall (F1 F2 : flags) (o : tree) (n : val),
+  managed o = true ->
+  to_tree (assign_tree F2 (to_tree (assign_tree F1 o n)) n) = to_tree (assign_tree (funion F1 F2) o n).
+Proof. exact tree_two_runs_compose. Qed.
+
+Theorem C09_tree_fix_update_orders_agree :
+  forall (o : tree) (n : val),
+  managed o = true ->
+  let Ff := {| f_create := false; f_fix := true; f_trim := false; f_update := false |} in
+  let Fu := {| f_create := false; f_fix := false; f_trim := false; f_update := true |} in
+  to_tree (assign_tree Fu (to_tree (assign_tree Ff o n)) n) =
+  to_tree (assign_tree Ff (to_tree (assign_tree Fu o n)) n).
+Proof. exact tree_fix_update_orders_agree. Qed.
+
+Theorem C09_assign_fix_update_canon :
+  forall (f : nat) (F : flags) (o : tree) (n : val),
+  depth o < f ->
+  managed o = true -> f_fix F = true -> f_update F = true -> to_tree (assign f F o n) = canon_tree n.
+Proof. exact assign_fix_update_canon. Qed.
+
+Theorem C09_align_ext :
+  forall (A A' B : Type) (eqb : A -> B -> bool) (eqb' : A' -> B -> bool) (as_ : list A) 
+  (as' : list A') (bs : list B),
+  Forall2 (SameEq A A' B eqb eqb') as_ as' -> Align.align A B eqb as_ bs = Align.align A' B eqb' as' bs.
+Proof. exact align_ext. Qed.
+
 Print Assumptions C09_two_runs_compose_flat.
 Print Assumptions C09_runs_confluent_flat.
 Print Assumptions C09_runs_order_irrelevant_flat.
 Print Assumptions C09_single_category_runs_confluent_flat.
 Print Assumptions C09_stage_compose.
 Print Assumptions C09_src_after_val.
+Print Assumptions C09_tree_two_runs_compose.
+Print Assumptions C09_tree_fix_update_orders_agree.
+Print Assumptions C09_assign_fix_update_canon.
+Print Assumptions C09_align_ext.
